@@ -510,3 +510,38 @@ Example C04_exec_cone_example :
   xa_log Engine.mix_run xa_proj' (xa_w 1 None) = [(2, true); (3, true)] /\
   Engine.kept xa_proj xa_proj' 2 = false /\ Engine.kept xa_proj xa_proj' 3 = true.
 Proof. vm_compute. repeat split; reflexivity. Qed.
+
+(* Amended (dynamic) inputs, deferral and failing steps (the gated engine of model/Engine.v, as the
+   code): from any state in which every SUCCEEDED step has a recorded trace that matches the present
+   contents of its declared ++ remembered amended inputs, its variables and its outputs (K_a), every
+   step whose command the rebuild EXECUTES (also one that then defers or fails) was not up to date
+   before, or consumes -- as a declared or remembered amended input -- an edited source or an output
+   with CHANGED content of another executed step, or tracks a changed variable, or one of its
+   remembered amended inputs is not available when it gets its turn.
+   _partial: the hypothesis K_a is not discharged for all histories of the gated engine
+   (NoopExec.C04_exec_cone_amend_full states that; C01 proves the invariant for the ungated one). *)
+Theorem C04_exec_cone_amend_partial :
+  forall (run : N -> list (option N) -> list (option N) -> N -> N)
+         (amend : N -> list (option N) -> list N)
+         (fails : N -> list (option N) -> list (option N) -> bool)
+         (proj : Engine.project) (y : Engine.asys) (w : Engine.world) (s : Engine.step),
+    NoDup (map Engine.sid proj) -> NoDup (Engine.outs proj) -> In s proj ->
+    (forall q, In q proj -> Engine.K_step (Engine.abase y) (Engine.remb y q)) ->
+    NoopExec.a_ran run amend fails proj (Engine.resync_a proj y w) (Engine.sid s) ->
+    NoopExec.exec_cause_a run amend fails proj y (Engine.resync_a proj y w)
+                          (Engine.build_world_a run amend fails true proj w y) s.
+Proof. exact NoopExecProofs.exec_cone_amend. Qed.
+
+(* p28 of C01: step 2 amends the output 10 of step 1 when its declared input 2 has content 5.  After
+   a build, editing the source 3 of step 1 executes 1 and then 2 (its remembered amended input
+   changed); editing nothing executes nothing. *)
+Example C04_exec_cone_amend_example :
+  let p := [Engine.mkStep 1 [3] [] [10]; Engine.mkStep 2 [2] [] [20]] in
+  let am := Engine.amend_tab [(2, 5, [10])] in
+  let w0 : Engine.world := (Engine.src_of [(2, 5); (3, 7)], fun _ => None) in
+  let w1 : Engine.world := (Engine.src_of [(2, 5); (3, 8)], fun _ => None) in
+  let y := Engine.build_world_a Engine.mix_run am Engine.no_fail true p w0 Engine.empty_asys in
+  Engine.adyn y 2 = [10] /\
+  Engine.a_build_log Engine.mix_run am Engine.no_fail true p p (Engine.resync_a p y w1) = [(1, true); (2, true)] /\
+  Engine.a_build_log Engine.mix_run am Engine.no_fail true p p (Engine.resync_a p y w0) = [].
+Proof. vm_compute. repeat split; reflexivity. Qed.
